@@ -533,6 +533,11 @@ def start_deferred(sa, orm, R, zoo, s, rd):
     loader = rd["loader"]
     if how != "execute_then_fetch" and loader == "subquery":
         loader = "selectin"       # yield_per rejects subquery eager loading (documented)
+    if loader == "mapper_default" and zoo.rel(rd["cls"], rd["rel"]).lazy not in ("selectin", "immediate") + (
+            ("subquery",) if how == "execute_then_fetch" else ()):
+        # the mapper default is not a post-load loader (joined: the related rows would come
+        # from the lead cursor, opened before the gap; select: nothing is loaded at all)
+        loader = "selectin"
     if loader != "mapper_default":
         st = st.options(fn[loader](getattr(K, rd["rel"])))
     if how != "execute_then_fetch":
@@ -773,6 +778,13 @@ def run(ctx):
                     # flushed: what such a cursor shows of rows written meanwhile is SQLite's
                     # business, so the gap does not write the lead table itself
                     hist = [op for op in hist if not touches_table(op, rd["cls"])]
+                    # ... nor deletes a row of the collection's target class: the flush of such
+                    # a delete loads the reverse side, may populate the very collection under
+                    # test before its DELETE (documented: a collection loaded in the same flush
+                    # keeps the deleted member), and a post-load loader does not overwrite a
+                    # loaded attribute - membership would depend on where the flush happens
+                    tfam = fam(zoo.rel(rd["cls"], rd["rel"]).target)
+                    hist = [op for op in hist if not (op["op"] in ("delete", "readd") and fam(op["cls"]) == tfam)]
                 if ci % 3 == 0:
                     ctl = ["no_autoflush_block", "exec_option", "session_flag"][(ci // 3) % 3]
                 else:
